@@ -163,6 +163,9 @@ func runC09(c *explore.Ctx) {
 			runScenario(c, sc, menu, solo, fresh, finalOps, false)
 		}
 	}
+	if !c.Replay || strings.HasPrefix(c.ReplayScope, "BIG-") {
+		c09Big(c, len(scs))
+	}
 	if !c.Replay || strings.HasPrefix(c.ReplayScope, "NEST") {
 		nestingSweep(c, menu, solo, fresh)
 	}
